@@ -272,8 +272,8 @@ def impl_accept(source):
         return True, fn
     except ExpressionError:
         return False, None
-    except RecursionError:   # nothing was returned, nothing can be evaluated: a rejection (by a raw error)
-        return False, None
+    except RecursionError as ex:   # nothing was returned, nothing can be evaluated: a rejection -- but by a raw error, not by
+        return False, ex            # the expression error the property names (reported by the callers)
     except Exception as ex:  # the visitor let it through; compile() then failed with a raw error
         return True, ex
 
@@ -447,6 +447,11 @@ def run(ck):
                     acc, fn = impl_accept(src_)
                 except BaseException as ex:  # noqa
                     continue
+                if isinstance(fn, Exception) and not acc:
+                    ck.fail_input("C11:rejected-with-non-expression-error:%s:deep-expression" % type(fn).__name__,
+                                  "compile() of a chain of %d terms carrying %r raised %s instead of ExpressionError" % (terms, pl, type(fn).__name__),
+                                  {"expr": src_[:200] + " ...", "names": NAMES, "kind": "deep", "terms": terms, "payload": pl})
+                    continue
                 if acc:
                     for sig, what in audit_accepted(src_, fn if callable(fn) else (lambda **k: None)):
                         ck.fail_input(sig + ":deep-expression", what + " (inside a chain of %d terms)" % terms,
@@ -543,6 +548,24 @@ def run(ck):
                           "evaluating %r with %r gives %s, the variables' values give %s (a variable named like a whitelisted function is "
                           "not what the expression reads)" % (src_, env, got, want), {"expr": src_, "names": sorted(env), "variables": env})
     ck.notes["value_oracle_runs"] = n_val
+    # ---------- a DECLARED variable that is not supplied when the compiled expression is called: nothing else may stand in for it
+    # (a name such as `open` or `__import__` is a legal variable name; the interpreter's builtins must not answer for it)
+    n_unsup = 0
+    for name in ("open", "__import__", "eval", "print", "vars", "len", "t"):
+        try:
+            fn = ExpressionEvaluator().compile(name, {name, "u"})
+        except ExpressionError:
+            continue
+        try:
+            got = ("value", repr(fn(u=1))[:60])
+        except Exception as ex:  # noqa
+            got = ("raises", type(ex).__name__)
+        n_unsup += 1
+        if got[0] == "value":
+            ck.fail_input("C11:evaluation-reaches-builtins:declared-variable-not-supplied",
+                          "the accepted expression %r (variables %s), called without a value for %r, evaluates to %s: evaluation reads something that is not "
+                          "one of its variables" % (name, sorted({name, "u"}), name, got[1]), {"expr": name, "names": sorted({name, "u"}), "supplied": ["u"]})
+    ck.notes["unsupplied_variable_runs"] = n_unsup
     ck.cov["trusted_base"] = TRUSTED
 
 
